@@ -45,11 +45,21 @@ func bombIn(container, prefix, suffix string, padByte byte, n int64) string {
 	}
 	_, _ = w.Write([]byte(prefix))
 	chunk := bytes.Repeat([]byte{padByte}, 1<<20)
+	var noise *rand.Rand
+	if container == "noisy" {
+		// padding that compresses less well (about 20:1 instead of 1000:1): the request itself is megabytes long
+		noise = rand.New(rand.NewSource(n))
+	}
 	written := int64(0)
 	for n > 0 {
 		k := int64(len(chunk))
 		if k > n {
 			k = n
+		}
+		if noise != nil {
+			for i := 0; i < len(chunk); i += 64 {
+				chunk[i] = "0123456789abcdef"[noise.Intn(16)]
+			}
 		}
 		_, _ = w.Write(chunk[:k])
 		n -= k
@@ -111,6 +121,8 @@ func c14Run(r *core.Run, idx int, rng *rand.Rand) {
 	variants = append(variants, variant{"comment/multi", "sso_query", true, false, false, false}, variant{"text/multi", "logout_form", true, false, false, false}, variant{"after_root/multi", "sso_form", true, false, false, false})
 	variants = append(variants, variant{"comment", "logout_query", true, false, false, true}, variant{"text", "sso_query", true, false, false, true})
 	variants = append(variants, variant{"utf16", "logout_query", false, false, false, false}, variant{"utf16", "sso_form", false, false, false, false})
+	// requests that are megabytes long themselves (padding that compresses about 20:1), which only a form can carry
+	variants = append(variants, variant{"after_root/noisy", "sso_form", true, false, false, false}, variant{"comment/noisy", "logout_form", true, false, false, false}, variant{"text/noisy", "sso_form", true, false, false, false})
 	// verbose logging switched on at run time (what gets logged about a request must be bounded too); other methods
 	// than GET and POST on the same routes (the form parser reads the query for all of them, the body for PUT / PATCH)
 	variants = append(variants, variant{"comment", "sso_query", true, false, true, false}, variant{"text", "logout_form", true, false, true, false}, variant{"attribute/zlib", "sso_form", true, false, true, false})
@@ -145,6 +157,9 @@ func c14Run(r *core.Run, idx int, rng *rand.Rand) {
 			}
 			if v.busy && size < 32<<20 {
 				continue // only acceptance is judged beside busy clients
+			}
+			if strings.HasSuffix(v.place, "/noisy") && size != 36<<20 && size != 64<<20 {
+				continue // net/http reads at most 10 MB of a form
 			}
 			// the message
 			var prefix, suffix string
